@@ -1,1 +1,17 @@
-fn main() {}
+//! Monitors over real git storage: C03 (canonical head quorum), C28 (storage cleanup).
+mod c03;
+mod c28;
+mod fx;
+
+fn main() {
+    vcommon::install_panic_hook();
+    let args = vcommon::Args::parse();
+    match args.prop.as_str() {
+        "C03" => c03::run(&args),
+        "C28" => c28::run(&args),
+        p => {
+            eprintln!("h-git: unknown property {p}");
+            std::process::exit(2);
+        }
+    }
+}
